@@ -265,14 +265,34 @@ def iee_blob_layout(env, tree):
             callee = _callee_name(node)
             if callee == "pack":
                 fmt = env.eval(node.args[0], cls="IeeKeyBlob")
-                body = fmt.lstrip("<>=!@")
-                if not (isinstance(fmt, str) and body.isalpha() and len(body) == len(node.args) - 1):
+                if not isinstance(fmt, str):
                     return {}
-                for j, a in enumerate(node.args[1:]):
-                    f = _field_of(a)
+                # one struct sub-format per packed argument, read by VALUE: "<3I" = "<III" (a repeat count is a spelling, C13h_2),
+                # "16s" / "4p" / "2x" stay one item (x takes no argument)
+                import re as _re
+                items = []
+                for cnt, code in _re.findall(r"(\d*)([a-zA-Z?])", fmt.lstrip("<>=!@")):
+                    if code in "sp":
+                        items.append(cnt + code)
+                    elif code == "x":
+                        items.append((cnt or "1") + "x")
+                    else:
+                        items += [code] * int(cnt or 1)
+                args_fmt = [i for i in items if not i.endswith("x")]
+                if len(args_fmt) != len(node.args) - 1 or "".join(items) == "":
+                    return {}
+                k = 0
+                pre = ""
+                for it in items:
+                    if it.endswith("x"):
+                        pre += it
+                        continue
+                    f = _field_of(node.args[1 + k])
                     if f:
-                        out.setdefault(f, off + struct.calcsize("<" + body[:j]))
-                off += struct.calcsize("<" + body)
+                        out.setdefault(f, off + struct.calcsize("<" + pre))
+                    pre += it
+                    k += 1
+                off += struct.calcsize("<" + pre)
             elif callee == "export":
                 out.setdefault("Attr", off)
                 off += struct.calcsize(env.cls("IeeKeyBlobAttribute").value("_FORMAT"))
